@@ -202,6 +202,7 @@ def run(rep, tier):
     separation_symmetry_probe(rep, r, 12 * scale)
     separation_footprint_correspondence(rep, drv, r)
     iraf_separation_correspondence(rep, drv, r)
+    xycoords_pixel_correspondence(rep, drv, r)
     kernel_orientation_probe(rep, r, 12 * scale)
     xycoords_jitter_probe(rep, r, 4 * scale)
 
@@ -567,6 +568,41 @@ def iraf_separation_correspondence(rep, drv, r):
                               f'separation of {res.split()[1]}', {'min_separation': given, 'fwhm': fwhm, 'minsep_fwhm': mf})
             else:
                 rep.tie_broken('IRAFStarFinder separation / neighbourhood differs from the model', {'op': ln, 'model': o[:200], 'impl': res[:200]})
+
+
+def xycoords_pixel_correspondence(rep, drv, r):
+    """(T) the pixel a supplied position belongs to: the expression found in the finders (Gen/XyRounding, `np.ceil(x - 0.5).astype(int)`)
+    evaluated by numpy vs the Lean `xyPixel`, half-pixel and negative positions included; and (S) on the implementation: a source supplied
+    at its pixel centre +- 0.5 is measured on the cut-out of the pixel the model names"""
+    from photutils.detection import DAOStarFinder
+    xs = [10.5, 11.5, 10.49, 10.51, 0.5, -0.5, -1.5, 3.0, 7.25, 12.75] + [r.randint(-40, 400) / 8 for _ in range(20)] + [r.randint(0, 60) + 0.5 for _ in range(10)]
+    out = drv.run(['xypix ' + ' '.join(q(x) for x in xs)])
+    if out is None:
+        rep.tie_broken('model driver failed (xypix)', drv.error)
+        return
+    want = [int(v) for v in np.ceil(np.array(xs) - 0.5).astype(int)]
+    got = [int(t) for t in out[0].split()[1:]] if out[0].startswith('ok') else None
+    rep.traces += len(xs)
+    rep.case(('xypix', tuple(xs)), True, kind='xycoords-pixel')
+    if got != want:
+        rep.tie_broken('xyPixel model differs from np.ceil(x - 0.5)', {'x': xs, 'model': got, 'numpy': want})
+        return
+    # implementation: a bright pixel-centred source at (20, 17); positions supplied on the half-pixel boundaries around it
+    yy, xx = np.mgrid[0:35, 0:41]
+    img = 100 * np.exp(-((xx - 20) ** 2 + (yy - 17) ** 2) / (2 * 1.3 ** 2))
+    for (px, py) in [(20.5, 17.0), (19.5, 17.0), (20.0, 17.5), (20.0, 16.5), (20.5, 17.5)]:
+        with warnings.catch_warnings():
+            warnings.simplefilter('ignore')
+            t = DAOStarFinder(threshold=1.0, fwhm=3.0, xycoords=np.array([(px, py)]), sharplo=-10, sharphi=10, roundlo=-10, roundhi=10)(img)
+        mx, my = want[xs.index(px)] if px in xs else int(np.ceil(px - 0.5)), int(np.ceil(py - 0.5))
+        # the centroid is an offset from the centre of the cut-out's pixel: the source is at (20, 17) whichever pixel was chosen, so the
+        # result identifies the chosen pixel only through its peak value (the cut-out centre pixel value)
+        peak = None if t is None else float(t['peak'][0])
+        exp = float(img[my, mx])
+        rep.case(('xypix-impl', px, py), True, kind='xycoords-pixel:implementation')
+        if peak is None or abs(peak - exp) > 1e-9 * max(1.0, exp):
+            rep.violation('xycoords-pixel', f'DAOStarFinder(xycoords=[({px}, {py})]): peak = {peak}, the value of the pixel ({mx}, {my}) that ceil(x - 0.5) names is {exp}',
+                          {'xycoords': [px, py], 'pixel': [mx, my]})
 
 
 def exclude_border_probe(rep, r, n):
